@@ -2,7 +2,7 @@
    Gen/FileManager.v of generator/file_manager.go.  This file holds statements only;
    every proof is [exact lemma] and is followed by Print Assumptions. *)
 From Coq Require Import List Arith Bool.
-From Verif Require Import Base.Bytes Gen.FileManager Gen.FileManagerFacts Gen.FileManagerTerm Corr.C12 Gen.FileManagerSpec Gen.FileManagerText.
+From Verif Require Import Base.Bytes Gen.FileManager Gen.FileManagerFacts Gen.FileManagerTerm Corr.C12 Gen.FileManagerSpec Gen.FileManagerText Gen.FileManagerExpand.
 Import ListNotations.
 
 (* Every history of Feed calls (any number of calls, any items): the assembled output never
@@ -122,6 +122,41 @@ Theorem C12_unpatched_file_text :
 Proof. exact build_one_no_patches. Qed.
 Print Assumptions C12_unpatched_file_text.
 
+(* Text level WITH patches, for every history whose insertion-point names are over the marker
+   alphabet [$.0-9a-zA-Z_] (the empty name included): the response is the list of kept files, each
+   with its submitted text in which every marker is replaced by the contents of the patches
+   recorded for that point and that file, in submission order (nothing when there is none), every
+   other byte kept, and inserted text not scanned again (`expand`, a declarative scanner that
+   mentions neither the regexp result list, nor the replacer's key table, nor the replacer). *)
+Theorem C12_history_texts :
+  forall h m, forallb ips_wf h = true -> feeds fm0 h = Ok m ->
+  build m = map (fun f => (fst f, expand (patches_of m (fst f)) 0 (snd f))) (files m).
+Proof. exact history_texts. Qed.
+Print Assumptions C12_history_texts.
+
+Theorem C12_patched_file_text :
+  forall m name content, ips_wf (patches_of m name) = true ->
+  build_one m (name, content) = (name, expand (patches_of m name) 0 content).
+Proof. exact build_one_patched. Qed.
+Print Assumptions C12_patched_file_text.
+
+(* what `expand` does, clause by clause: at a marker the patches of that point in order, then on
+   after the marker; any other byte is copied; without patches it is `strip_markers` *)
+Theorem C12_expand_at_marker :
+  forall ps nm rest, forallb ip_char nm = true ->
+  expand ps 0 (marker nm ++ rest) = patch_text (marker nm) ps ++ expand ps 0 rest.
+Proof. exact expand_at_marker. Qed.
+Print Assumptions C12_expand_at_marker.
+
+Theorem C12_expand_other :
+  forall ps c rest, marker_at (c :: rest) = None -> expand ps 0 (c :: rest) = c :: expand ps 0 rest.
+Proof. exact expand_other. Qed.
+Print Assumptions C12_expand_other.
+
+Theorem C12_expand_without_patches : forall s skip, expand [] skip s = strip_markers skip s.
+Proof. exact expand_nil. Qed.
+Print Assumptions C12_expand_without_patches.
+
 (* Termination: for every history the model never exhausts the fuel it gives to the rename walk
    (the Go `for {}` loop) or to the item loop — the walk over own siblings ends, and among the
    candidate names `<stem>_<n><ext>` a free one is reached after at most as many steps as there are
@@ -146,4 +181,9 @@ Example C12_example_patches :
   run [[Fl (B "a.go") (B "x@@thriftgo_insertion_point(p)y@@thriftgo_insertion_point(q)");
         Up (B "p") (B "1"); Up (B "p") (B "2")]; [Np (B "a.go") (B "p") (B "3")]]
   = Ok [(B "a.go", B "x123y")].
+Proof. vm_compute. reflexivity. Qed.
+
+Example C12_example_patches_in_domain :
+  forallb ips_wf [[Fl (B "a.go") (B "x@@thriftgo_insertion_point(p)y@@thriftgo_insertion_point(q)");
+        Up (B "p") (B "1"); Up (B "p") (B "2")]; [Np (B "a.go") (B "p") (B "3")]] = true.
 Proof. vm_compute. reflexivity. Qed.
